@@ -22,6 +22,8 @@ import vlib
 HERE = os.path.dirname(os.path.abspath(__file__))
 sys.path.insert(0, os.path.join(vlib.VERIF, "translators"))
 import shared_mutable  # noqa: E402
+sys.path.insert(0, HERE)
+import stores_tie  # noqa: E402
 
 LIBS = "testcel_celeritas testcel_harness testcel_core testcel_geocel celeritas orange geocel corecel".split()
 PRE = ("From Coq Require Import String List Bool.\n"
@@ -101,6 +103,12 @@ def run(ctx):
     ctx.coverage["cells"] = len(cells)
     for k in sorted({c[2] for c in cells}):
         ctx.count("cell-kind:" + k, sum(1 for c in cells if c[2] == k))
+
+    # ---- 1b. source shapes behind the index model of StreamStore / AuxStateVec (coq/C07/Stores.v)
+    bad_shapes = stores_tie.check_shapes(ctx)
+    if bad_shapes:
+        ctx.violation("tie-broken", "per-stream store shape no longer recognised: %s" % bad_shapes[0],
+                      {"unrecognised_shapes": bad_shapes}, no_input=True)
 
     # ---- 2. proofs -----------------------------------------------------------
     proofs_ok = ctx.coq_prove("Properties_C07.v")
